@@ -185,6 +185,13 @@ def enumerate_cases(tier, seed):
     thorough = tier == "thorough"
     cases = [{"fam": "layout", "layout": lay} for lay in layouts(3 if thorough else 2)]
     small = layouts(2)
+    # the placeholders of a vector parameter given as a tuple instead of a list (Python API)
+    for lay in small:
+        if any(kind_info(k)["vector"] for k in lay):
+            cases.append({"fam": "layout", "layout": lay, "form": "tuple"})
+    for t, lay in enumerate(small):
+        if len(lay) == 2 and kind_info(lay[0])["vector"] and t % 4 == 0:
+            cases.append({"fam": "run", "layout": lay, "algo": ALGOS[t % 3], "pygmo_seed": 1, "islands": 1, "form": "tuple"})
     if thorough:
         for lay in small:
             for algo in ALGOS:
@@ -203,13 +210,13 @@ def enumerate_cases(tier, seed):
 
 def expected_size(tier, seed):
     if tier == "thorough":
-        return 1110 + 110 * 3 * 2 * 2
-    return 110 + 10 * 3 + 100
+        return 1110 + 110 * 3 * 2 * 2 + 124
+    return 110 + 10 * 3 + 100 + 124
 
 
 # ---------------------------------------------------------------- construction
 
-def build(layout, seed, td, **calkw):
+def build(layout, seed, td, form="list", **calkw):
     from pyxel.observation import ParameterValues
     from pyxel.pipelines import Processor
 
@@ -225,7 +232,8 @@ def build(layout, seed, td, **calkw):
         key = f"pipeline.{g}.{name}.arguments.x"
         keys.append(key)
         bnd = [tuple(p) for p in bd] if (info["vector"] and info["per"]) else tuple(bd)
-        params.append(ParameterValues(key=key, values=["_"] * info["n"] if info["vector"] else "_",
+        ph = ["_"] * info["n"]
+        params.append(ParameterValues(key=key, values=(tuple(ph) if form == "tuple" else ph) if info["vector"] else "_",
                                       boundaries=bnd, logarithmic=info["log"]))
     det = mk.detector("ccd", 2, 3)
     pipe = mk.pipeline(groups)
@@ -273,6 +281,8 @@ def _run_layout(case, seed, td):
 
     def bad(code, what, pos=None, kind=None, **extra):
         key = {"fam": "layout", "code": code, "nparams": len(layout), "pos": pos, "kind": kind}
+        if case.get("form", "list") != "list":
+            key["form"] = case["form"]
         key.update(extra)
         viol.append((key, f"layout [{lname}] (declared boundaries {declared_bounds(layout, seed)}): {what}"))
 
@@ -280,7 +290,7 @@ def _run_layout(case, seed, td):
     walk, ncomp = ref_walk(layout)
     sig = cfgx.sig(["layout", layout, dlo, dhi])
     try:
-        cal, proc, keys = build(layout, seed, td, pygmo_seed=1)
+        cal, proc, keys = build(layout, seed, td, form=case.get("form", "list"), pygmo_seed=1)
         problem, _ = calib.real_problem(cal, proc)
     except Exception as e:  # noqa: BLE001
         bad("construction-raised", f"building the fitting problem raised {type(e).__name__}: {str(e)[:300]}")
@@ -400,6 +410,8 @@ def _run_optim(case, seed, td):
 
     def bad(code, what, **extra):
         key = {"fam": "run", "code": code, "algo": algo, "islands": isl}
+        if case.get("form", "list") != "list":
+            key["form"] = case["form"]
         key.update(extra)
         viol.append((key, f"optimisation {algo} pygmo_seed={pygmo_seed} islands={isl} layout [{lname}] "
                           f"(declared boundaries {declared_bounds(layout, seed)}): {what}"))
@@ -412,7 +424,7 @@ def _run_optim(case, seed, td):
         kw = {"maxeval": 12} if algo == "nlopt" else {}
         from pyxel.calibration import Algorithm
 
-        cal, proc, keys = build(layout, seed, td, pygmo_seed=pygmo_seed, num_islands=isl, num_evolutions=2,
+        cal, proc, keys = build(layout, seed, td, form=case.get("form", "list"), pygmo_seed=pygmo_seed, num_islands=isl, num_evolutions=2,
                                 num_best_decisions=3)
         cal.algorithm = Algorithm(type=algo, generations=2 if algo != "nlopt" else 1, population_size=8, **kw)
         res = pyxel.run_mode(cal, proc.detector, proc.pipeline, with_inherited_coords=True)
